@@ -189,41 +189,43 @@ def run_case(case: dict) -> dict:
             sigs.append([fmt, shape, point["syscall"], point["when"], "boundary"])
             for key, msg in problems:
                 violations.append({"key": f"{key}/{role(point['target'])}", "msg": f"{label}: {msg}"})
-            # torn variants of the previous write: this state holds the complete previous write
-            if index > 0 and points[index - 1]["syscall"] in ("write", "pwrite64", "writev"):
-                prev = points[index - 1]
-                written = int(prev["ret"]) if prev["ret"].isdigit() else 0
-                # the crashed run uses other uuid names than the reference run: take the file that *this*
-                # run's write #when went to from this run's own trace (never guess by modification time)
-                own_points, _ = crash_points(log, str(state))
-                own = [p for p in own_points if p["syscall"] == prev["syscall"] and p["when"] == prev["when"]]
-                target = (state / own[0]["target"].lstrip("/")) if own and own[0]["target"] else None
-                if target is not None and not target.is_file():
-                    target = None
-                if target is None:
-                    obs["torn_target_not_identified"] += 1
-                if target is not None and written > 1:
-                    size_after = target.stat().st_size
-                    size_before = max(0, size_after - written)
-                    is_meta = target.name.endswith(".json") or "update_" in target.name
-                    if case["all_torn"] and is_meta:
-                        # thorough: every prefix of small metadata writes, a dense sample of larger ones
-                        cuts = range(1, written) if written <= 160 else sorted(
-                            set(range(1, 40)) | set(range(written - 40, written)) | set(range(40, written - 40, max(1, written // 120))))
-                    else:
-                        cuts = sorted({1, written // 2, written - 1})
-                    original = target.read_bytes()
-                    for cut in cuts:
-                        if not 0 < cut < written:
-                            continue
-                        target.write_bytes(original[:size_before + cut])
-                        problems = audit_state(state, committed_ids, attempted)
-                        obs["torn_states_audited"] += 1
-                        sigs.append([fmt, shape, "write", prev["when"], "torn-1" if cut == 1 else "torn-mid" if cut < written - 1 else "torn-n-1"])
-                        for key, msg in problems:
-                            violations.append({"key": f"{key}/torn-{role(prev['target'])}",
-                                               "msg": f"{fmt} {shape}: write #{prev['when']} to {prev['target'][-50:]} torn after {cut}/{written} bytes: {msg}"})
-                    target.write_bytes(original)
+            # torn variants of the write that completed immediately before the kill.  Everything is read from
+            # the crashed run's OWN trace (never matched against the reference run by counters or guessed by
+            # modification time): if the last dataset-touching call before the killed one is a write, the
+            # state holds exactly that complete write and nothing after it; its target is then cut back to
+            # every/sampled shorter length.  Not done for real multi-process sessions (other writers run on).
+            if shape == "multi-real":
+                continue
+            own_points, _ = crash_points(log, str(state))
+            if len(own_points) < 2 or own_points[-2]["syscall"] not in ("write", "pwrite64", "writev"):
+                continue
+            prev = own_points[-2]
+            written = int(prev["ret"]) if prev["ret"].isdigit() else 0
+            target = (state / prev["target"].lstrip("/")) if prev["target"] else None
+            if target is None or not target.is_file() or written <= 1:
+                obs["torn_target_not_identified"] += 1
+                continue
+            size_after = target.stat().st_size
+            size_before = max(0, size_after - written)
+            is_meta = target.name.endswith(".json") or "update_" in target.name
+            if case["all_torn"] and is_meta:
+                # thorough: every prefix of small metadata writes, a dense sample of larger ones
+                cuts = range(1, written) if written <= 160 else sorted(
+                    set(range(1, 40)) | set(range(written - 40, written)) | set(range(40, written - 40, max(1, written // 120))))
+            else:
+                cuts = sorted({1, written // 2, written - 1})
+            original = target.read_bytes()
+            for cut in cuts:
+                if not 0 < cut < written:
+                    continue
+                target.write_bytes(original[:size_before + cut])
+                problems = audit_state(state, committed_ids, attempted)
+                obs["torn_states_audited"] += 1
+                sigs.append([fmt, shape, "write", prev["when"], "torn-1" if cut == 1 else "torn-mid" if cut < written - 1 else "torn-n-1"])
+                for key, msg in problems:
+                    violations.append({"key": f"{key}/torn-{role(prev['target'])}",
+                                       "msg": f"{fmt} {shape}: write #{prev['when']} to {prev['target'][-50:]} torn after {cut}/{written} bytes: {msg}"})
+            target.write_bytes(original)
         obs["crash_points_total"] = len(points)
         return {"sigs": sigs, "sig": None, "nontrivial": obs["processes_killed"] > 0, "violations": violations,
                 "obs": dict(obs),
